@@ -22,6 +22,7 @@ import threading
 from typing import Any, Callable
 
 import numpy as np
+from numpy.random.mtrand import RandomState as _RealRandomState
 
 ACTIVE: "Sim | None" = None          # the simulation currently installed in this interpreter
 _TLS = threading.local()             # real thread -> SimThread
@@ -48,11 +49,11 @@ class SimDeadlock(Exception):
 class Ctx:
     """A simulated process: its own global NumPy and stdlib generators."""
 
-    __slots__ = ("pid", "np_rs", "py_rng", "parent", "ndraws", "crashed", "label", "first")
+    __slots__ = ("pid", "np_rs", "py_rng", "parent", "ndraws", "crashed", "label", "first", "pstate", "fork_event")
 
     def __init__(self, pid: int, np_state=None, py_state=None, parent: int | None = None, label: str = "main"):
         self.pid = pid
-        self.np_rs = np.random.RandomState(0)
+        self.np_rs = _RealRandomState(0)
         if np_state is not None:
             self.np_rs.set_state(np_state)
         self.py_rng = _stdrandom.Random(0)
@@ -63,6 +64,8 @@ class Ctx:
         self.crashed = False
         self.label = label
         self.first: list = []        # digests of this process's first few draws (stream-replay detection)
+        self.pstate: dict | None = None   # process-private module / class state of the package (see procstate.py)
+        self.fork_event = 0          # logical time at which this process was forked (what it knows = what existed then)
 
 
 class SimThread:
@@ -85,12 +88,17 @@ class SimThread:
         self.early_point = 0   # line granularity: one forced switch early in the thread's life (first-use races)
 
 
+_SIM_SERIAL = [0]
+
+
 class Sim:
     """One simulated execution."""
 
     def __init__(self, seed: int, sched: dict | None = None, step_cap: int = 2_000_000, keep_events: int = 0,
                  event_kinds: tuple | None = None):
         self.seed = int(seed)
+        _SIM_SERIAL[0] += 1
+        self.serial = _SIM_SERIAL[0]
         sched = dict(sched or {})
         self.policy = sched.get("policy", "sticky")
         self.stick_p = float(sched.get("p", 0.9))
@@ -139,6 +147,9 @@ class Sim:
         self.obs: dict[str, Any] = {}
         self.fault_plan: Any = None
         self.rr_last = -1
+        # process-private module state (fork semantics), discovered at the first fork
+        self.pslots: list | None = None
+        self._installed_ctx: Ctx | None = None
 
     # ------------------------------------------------------------------ contexts
     def new_ctx(self, np_state=None, py_state=None, parent: int | None = None, label: str = "main") -> Ctx:
@@ -153,8 +164,36 @@ class Sim:
 
     def fork_ctx(self, parent: Ctx, label: str) -> Ctx:
         c = self.new_ctx(parent.np_rs.get_state(), parent.py_rng.getstate(), parent.pid, label)
+        # the child gets a copy of the parent's memory: module-level and class-level state of the package included
+        from . import procstate
+        if self.pslots is None:
+            self.pslots = procstate.discover()
+            self._installed_ctx = self.cur_ctx()
+            self.count("procstate_slots", len(self.pslots))
+        if self.pslots:
+            if self._installed_ctx is parent or parent.pstate is None:
+                parent.pstate = procstate.snapshot(self.pslots)
+            c.pstate = procstate.fork_copy(parent.pstate, self.count)
         self.event("fork", f"{parent.pid}->{c.pid}")
+        c.fork_event = self.nevents
         return c
+
+    def _ctx_resume(self, t: "SimThread | None"):
+        """The baton reached a thread: make its process's private module state the live one."""
+        if not self.pslots or t is None:
+            return
+        ctx = t.ctx
+        cur = self._installed_ctx
+        if cur is ctx:
+            return
+        from . import procstate
+        if cur is not None:
+            cur.pstate = procstate.snapshot(self.pslots)
+        if ctx.pstate is None:
+            ctx.pstate = procstate.snapshot(self.pslots)      # a context that never forked shares what is live now
+        procstate.install(self.pslots, ctx.pstate)
+        self._installed_ctx = ctx
+        self.count("procstate_swaps")
 
     def entropy(self) -> int:
         """What ``np.random.seed(None)`` 'reads from the OS' (32 bit)."""
@@ -258,6 +297,7 @@ class Sim:
             t.sem.acquire()
             try:
                 if not self.aborting:
+                    self._ctx_resume(t)
                     if self.granularity == "line":
                         sys.settrace(self._tracer)
                     fn()
@@ -406,6 +446,7 @@ class Sim:
         cur.sem.acquire()
         if self.aborting and not cur.is_main:
             raise SimAbort()
+        self._ctx_resume(cur)
 
     def _handoff_from_finished(self, t: SimThread):
         runnable = self._runnable()
@@ -424,6 +465,11 @@ class Sim:
     def teardown(self):
         """Unwind every parked simulated thread.  Called by the main thread when the run is over."""
         self.aborting = True
+        # back to the parent process's view of the package's module state
+        try:
+            self._ctx_resume(self.main)
+        except Exception:
+            pass
         for t in self.threads:
             if t.is_main or t.done:
                 continue
